@@ -37,7 +37,8 @@ def correspondence(ctx):
                 "traverse_object_trees runs under virtual time, its event stream is replayed block by block through the Lean "
                 "model and judged by the verified monitors " + ",".join(MONITORS) + "; non-trivial = more than two executions")
     n = 3000 if thorough else 240
-    trav_common.family_run(ctx, MONITORS, n, corpus=CORPUS, n_parsed=48 if thorough else 12)
+    trav_common.family_run(ctx, MONITORS, n, corpus=CORPUS, n_parsed=48 if thorough else 12,
+                            n_lazyparsed=12 if thorough else 3)
 
 
 def search(ctx, reason):
